@@ -90,19 +90,12 @@ func (s *h3srv) handle(w http.ResponseWriter, r *http.Request) {
 	if o.Declare {
 		h.Set("Content-Length", fmt.Sprint(len(a.Body)))
 	}
-	if hasBody && len(a.Trailers) > 0 {
-		if o.DeclareTr {
-			var names []string
-			seen := map[string]bool{}
-			for _, t := range a.Trailers {
-				k := http.CanonicalHeaderKey(t.Name)
-				if !seen[k] {
-					seen[k] = true
-					names = append(names, k)
-				}
-			}
-			h.Set("Trailer", strings.Join(names, ", "))
+	annSet := map[string]bool{}
+	if names := x.h3Announced(); hasBody && len(names) > 0 {
+		for _, n := range names {
+			annSet[n] = true
 		}
+		h.Set("Trailer", strings.Join(names, ", "))
 	}
 	w.WriteHeader(a.Code)
 	fl := w.(http.Flusher)
@@ -118,7 +111,7 @@ func (s *h3srv) handle(w http.ResponseWriter, r *http.Request) {
 	}
 	for _, t := range a.Trailers {
 		k := http.CanonicalHeaderKey(t.Name)
-		if o.DeclareTr {
+		if annSet[k] {
 			h[k] = append(h[k], t.Value)
 		} else {
 			h[http.TrailerPrefix+k] = append(h[http.TrailerPrefix+k], t.Value)
@@ -127,6 +120,20 @@ func (s *h3srv) handle(w http.ResponseWriter, r *http.Request) {
 }
 
 var rawH3 *h3raw
+
+// h3Announced: canonical, de-duplicated names for the Trailer header of the net/http-style origin
+func (x *exch) h3Announced() []string {
+	var names []string
+	seen := map[string]bool{}
+	for _, n := range x.A.announced(x.H3.DeclareTr) {
+		k := http.CanonicalHeaderKey(n)
+		if !seen[k] {
+			seen[k] = true
+			names = append(names, k)
+		}
+	}
+	return names
+}
 
 func newH3Client(decode bool) *req.Client {
 	c := req.C().SetTimeout(60 * time.Second).EnableInsecureSkipVerify().EnableForceHTTP3()
